@@ -33,10 +33,12 @@ impl<T> SendBuffer<T> {
     /// [`SendBuffer`] can only buffer one frame at a time. If you write a new frame to the buffer before the previous
     /// frame is sent, the previous frame will be overwritten.
     pub fn write(&self, frame: T) {
-        self.tx_waker.wake_by(Signals::TRANSPORT);
+        // store first, then wake: a sending task woken before the frame is visible would find the
+        // buffer empty, go back to sleep, and nobody would wake it again for this frame
+        *self.item.lock().unwrap() = Some(frame);
         #[cfg(gmquic_verif)]
         verif::between_write_steps();
-        *self.item.lock().unwrap() = Some(frame);
+        self.tx_waker.wake_by(Signals::TRANSPORT);
     }
 }
 
